@@ -97,6 +97,10 @@ pub struct SCfg {
     pub cap: usize,
     pub alphabet: u32,
     pub fault: Option<Fault>,
+    /// the application keeps polling `requests()` after a (transient) error item instead of
+    /// dropping the channel
+    #[serde(default)]
+    pub serve_on_after_error: bool,
     pub eof_at_end: bool,
     pub route: Route,
     /// the peer sends its whole script at once, before the server is polled at all
@@ -288,6 +292,7 @@ enum Ev {
 }
 
 struct St {
+    errors_seen: u32,
     stream: Option<Reqs>,
     sflag: Arc<Flag>,
     swaker: Waker,
@@ -412,6 +417,7 @@ impl World {
         };
         let sflag = Flag::new(true);
         let st = St {
+            errors_seen: 0,
             stream: Some(stream),
             swaker: Waker::from(sflag.clone()),
             sflag,
@@ -768,7 +774,7 @@ impl World {
                 let (mut s, waker) = {
                     let mut st = self.st.borrow_mut();
                     st.sflag.clear();
-                    (st.stream.take().unwrap(), st.swaker.clone())
+                    (st.stream.take().unwrap(), st.sflag.fresh_waker())
                 };
                 let prev = self.log.begin_poll(Task::Stream(0));
                 let mut cx = Context::from_waker(&waker);
@@ -836,6 +842,13 @@ impl World {
                                 }
                                 self.new_handler(f, p);
                             }
+                            Yielded::Err(k) if self.cfg.serve_on_after_error && self.st.borrow().errors_seen < 3 => {
+                                // the application logs the error and keeps serving (a write that failed
+                                // once - one value that could not be encoded - does not end a connection)
+                                self.log.push(Rec::S("stream_err_served_on", k));
+                                self.st.borrow_mut().errors_seen += 1;
+                                self.st.borrow().sflag.set();
+                            }
                             Yielded::Err(k) => {
                                 self.log.push(Rec::S("stream_err", k));
                                 // the application stops serving the channel and drops it
@@ -856,7 +869,7 @@ impl World {
                     let mut st = self.st.borrow_mut();
                     let h = &mut st.handlers[j];
                     h.flag.clear();
-                    (h.fut.take().unwrap(), h.waker.clone())
+                    (h.fut.take().unwrap(), h.flag.fresh_waker())
                 };
                 let prev = self.log.begin_poll(Task::Handler(j));
                 let mut cx = Context::from_waker(&waker);
